@@ -134,7 +134,7 @@ def mapFileCols (outFields : List Field) (fileFields : List (Option Field)) (col
 /-- one step of the file loop of `fileStore.iterate` (not the raw pass-through) -/
 structure ScanOut where
   rows : List Row := []
-  stopped : Bool := false   -- the loop returned early because a row mapped no column
+  stopped : Bool := false   -- (unused since the skip-row fix; kept for the JSON protocol)
   deriving Repr, Inhabited
 
 /-- `fileStore.iterate(outFields, ms, _, rawOkay = false, onRow)`: file rows first (merged with
@@ -152,7 +152,8 @@ def Store.iterate (cfg : TableCfg) (st : Store) (outFields : List Field) (includ
         | some m => mergeMemCols outFields st.memFields cfg.res tb cols m.cols
         | none => (cols, false)
       if inc1 || inc2 then { acc with rows := acc.rows ++ [{ key := r.key, cols := cols }] }
-      else { acc with stopped := true }) ({} : ScanOut)
+      else acc /- the row maps no requested column: skipped (before the fix recorded in
+                  known_findings.json the whole scan ended here with a nil error) -/) ({} : ScanOut)
   if fileOut.stopped then fileOut
   else
     let rest := mem.filter (fun m => !(fileRows.any (fun r => r.key == m.key)))
@@ -197,7 +198,7 @@ def Store.flush (cfg : TableCfg) (st : Store) (_sorted : Bool) : Store :=
             match writeRow cfg tb { key := r.key, cols := cols } with
             | some w => (acc.1 ++ [w], false)
             | none => acc
-          else (acc.1, true)) (([] : List Row), false)
+          else acc) (([] : List Row), false)
     let rest := if fromFile.2 then [] else st.mem.filter (fun m => !(fileRows.any (fun r => r.key == m.key)))
     let fromMem := rest.filterMap (fun m =>
       let (cols, _) := mergeMemCols outFields st.memFields cfg.res tb (outFields.map (fun _ => none)) m.cols
